@@ -216,6 +216,32 @@ prop("C09",
      )
 
 
+# ---------------------------------------------------------------------------------------------
+# C06 unmarshaling is faithful
+prop("C06",
+     family="codec",
+     mc=lambda tier: [("MC_Codec", "MC_Codec.cfg")],
+     driver=lambda tier, seed, gen, out: ["codec", "-mode", "decode", "-out", out, "-seed", str(seed)] +
+     _t(tier, ["-span", "400", "-random", "150"], ["-span", "70000", "-random", "20000"]),
+     trace=("Trace_Codec", "Trace_Codec.cfg"),
+     required=["accept", "reject", "via:attr", "via:soft", "via:wrap", "cls:int", "cls:frac", "cls:exp", "cls:null",
+               "cls:true", "cls:str", "cls:time", "cls:b64", "cls:b64nc", "cls:arr", "cls:obj"],
+     level_text="The decode table (kind x nullable x JSON literal class -> allowed outcomes) is a TLA+ operator; "
+                "integers are (anchor, offset) pairs so that every width boundary +-2 up to 2^70 and the 8/16-bit "
+                "ranges are exact in TLC's 32-bit arithmetic. TLC checks an intended decoder against it (unique "
+                "outcome for canonical integers, no accepted value out of range, encode/decode round trip, nested "
+                "ranges). The driver offers every literal of the vocabulary to all 28 kinds through "
+                "Attr.UnmarshalToType and through UnmarshalResource on soft and struct-backed types, exhaustively "
+                "-70000..70000 for the 8- and 16-bit kinds in the thorough tier, reads the stored value with math/big, "
+                "encoding/base64 and time.Parse, and TLC judges each outcome.",
+     level_note="Known finding: null accepted for non-nullable bytes. Fraction / exponent literals may be refused or "
+                "accepted as the integer they denote; -0 may be refused; a JSON array offered to a bytes attribute "
+                "is not judged. A panic is charged to C05, not C06.",
+     assumptions=["literals are valid JSON values", "string literals are classified by independent decoders (time.Parse, encoding/base64)"],
+     coverage=False,
+     )
+
+
 def run(pid, tier, seed):
     P = PROPS[pid]
     if "run" in P:
